@@ -39,7 +39,7 @@ type muxScenario struct {
 	Ops    []muxOp   `json:"ops"`
 	Fault  *muxFault `json:"fault,omitempty"`
 	Demux  bool      `json:"demux,omitempty"`
-	Reuse  bool      `json:"reuse,omitempty"` // the caller keeps one PacketAdaptationField object per class and passes it to every WriteData
+	Reuse  bool      `json:"reuse,omitempty"`  // the caller keeps one PacketAdaptationField object per class and passes it to every WriteData
 	Shadow bool      `json:"shadow,omitempty"` // a second, unrelated Muxer lives in the same process and is used between the calls
 }
 
